@@ -118,6 +118,7 @@ type Str struct {
 	alts   []string
 	atom   *sym.Term
 	origin string // input name for views created by nd.*
+	tight  bool
 }
 
 func concStr(s string) *Str { return &Str{kind: sConc, conc: s, max: len(s)} }
